@@ -13,11 +13,12 @@ SEARCH_HOLD = 2         # ball_search_hold_time in units
 EOS_LONG = 2            # eos_active_ms_before_repulse in units
 MAX_HITS = 2            # timeout_max_hits
 BPG = 2                 # balls per game
-KEYS = ('id', 'kind', 'dual', 'eos', 'rep', 'tmo', 'delay', 'btn', 'eosw', 'main', 'hold')
+KEYS = ('id', 'kind', 'dual', 'eos', 'rep', 'tmo', 'delay', 'btn', 'eosw', 'main', 'hold', 'auto', 'swap')
 
 
-def D(i, kind, btn, main, dual=False, eos=False, rep=False, tmo=False, delay=False, ev=False):
-    return dict(id=i, kind=kind, dual=dual, eos=eos, rep=rep, tmo=tmo, delay=delay, btn=btn,
+def D(i, kind, btn, main, dual=False, eos=False, rep=False, tmo=False, delay=False, ev=False, auto=None, swap=''):
+    return dict(id=i, kind=kind, dual=dual, eos=eos, rep=rep, tmo=tmo, delay=delay, btn=btn, swap=swap,
+                auto=(kind != 'kickback') if auto is None else auto,
                 eosw=('s_%s_eos' % i.lower()) if eos else '', main=main,
                 hold=('c_%s_hold' % i.lower()) if dual else '', ev=ev)
 
@@ -31,6 +32,9 @@ DEVS = [
     D('F4', 'flipper', 's_f4', 'c_f4_main', dual=True, eos=True),                # A+D+E (two coils, EOS)
     D('F5', 'flipper', 's_f5', 'c_f5_main', eos=True, rep=True, ev=True),        # one coil, EOS, software repulse
     D('F6', 'flipper', 's_f6', 'c_f6_main', dual=True, eos=True, rep=True),      # two coils, EOS, software repulse
+    # two flippers on the same button and coil (normal / novice): one event disables the one and enables the other
+    D('F7', 'flipper', 's_f7', 'c_f7_main', ev=True, swap='F8'),
+    D('F8', 'flipper', 's_f7', 'c_f7_main', ev=True, auto=False, swap='F7'),
     D('A1', 'autofire', 's_a1', 'c_a1'),
     D('A2', 'autofire', 's_a2', 'c_a2', tmo=True, ev=True),
     D('A3', 'autofire', 's_a3', 'c_a3', tmo=True, delay=True),
@@ -57,7 +61,8 @@ def write_machine(scratch):
         for s in (x['btn'], x['eosw']):
             if s and s not in sws:
                 sws.append(s)
-        coils.append((x['main'], x['kind'] == 'flipper' and not x['dual']))
+        if x['main'] not in [c for c, _ in coils]:
+            coils.append((x['main'], x['kind'] == 'flipper' and not x['dual']))
         if x['hold']:
             coils.append((x['hold'], True))
     for s in sws:
@@ -92,11 +97,13 @@ def write_machine(scratch):
             if x['delay']:
                 S.append('    coil_pulse_delay: 15ms')
         if x['ev']:
-            if x['kind'] == 'kickback':
-                S.append('    enable_events: %s_enable' % n)
+            sw_on = (', swap_%s_%s' % (x['swap'], n)) if x['swap'] else ''
+            sw_off = (', swap_%s_%s' % (n, x['swap'])) if x['swap'] else ''
+            if not x['auto']:
+                S.append('    enable_events: %s_enable%s' % (n, sw_on))
             else:
-                S.append('    enable_events: ball_started, %s_enable' % n)
-            S.append('    disable_events: ball_will_end, service_mode_entered, %s_disable' % n)
+                S.append('    enable_events: ball_started, %s_enable%s' % (n, sw_on))
+            S.append('    disable_events: ball_will_end, service_mode_entered, %s_disable%s' % (n, sw_off))
     for k in ('flipper', 'autofire', 'kickback'):
         L += sec[k]
     with open(d + '/config/config.yaml', 'w') as f:
@@ -359,6 +366,9 @@ class Run:
         if op in ('enable', 'disable', 'flip', 'release'):
             rec['d'] = a['d']
             self.request(op, a['d'])
+        elif op == 'swap':
+            rec['a'], rec['b'] = a['a'], a['b']
+            m.events.post('swap_%s_%s' % (a['a'], a['b']))
         elif op == 'search':
             rec['d'] = a['d']
             self.search_cb[a['d']](1, 1)
@@ -449,7 +459,7 @@ def exec_schedule(job):
 # ------------------------------------------------------------------------------ schedules
 ACTIVE_SETS = [
     ['F1', 'F2', 'A2'], ['F3', 'F5', 'K1'], ['F4', 'F6', 'A3'], ['F5', 'A2'], ['F5', 'F6'], ['A1', 'A2', 'K1'],
-    ['F1', 'A3'], ['F2', 'F5'], ['A2'], ['F5'],
+    ['F1', 'A3'], ['F2', 'F5'], ['A2'], ['F5'], ['F7', 'F8'], ['F7', 'F8', 'A2'],
 ]
 
 
@@ -489,6 +499,13 @@ def handmade():
             if he:
                 # tilt while ball_ending is held
                 out.append((c, [O('start')] + rs + [O('drain'), O('tilt'), O('relend')] + rs + [A, O('tilt'), O('drain'), O('relend')]))
+    # normal / novice flippers on one button and coil, switched by one event each way
+    for hs in (False, True):
+        rs = [O('relstart')] if hs else []
+        c = dict(active=['F7', 'F8'], holdS=hs, holdE=False)
+        W = lambda a, b: O('swap', a=a, b=b)
+        out.append((c, [O('start')] + rs + [W('F7', 'F8'), A, O('flip', d='F8'), W('F8', 'F7'), A, W('F7', 'F8'), O('drain'), A, A]))
+        out.append((c, [O('start')] + rs + [O('flip', d='F7'), W('F7', 'F8'), O('release', d='F8'), W('F8', 'F7'), O('tilt'), A]))
     return out
 
 
@@ -502,9 +519,9 @@ def mutate(sched, rnd):
     return out
 
 
-MC_RUNS_QUICK = [(['F1', 'A2'], 4, 4, 1), (['F5'], 5, 4, 1), (['F2', 'K1'], 4, 3, 1), (['F6', 'A3'], 4, 2, 1)]
+MC_RUNS_QUICK = [(['F1', 'A2'], 4, 4, 1), (['F5'], 5, 4, 1), (['F2', 'K1'], 4, 3, 1), (['F6', 'A3'], 4, 2, 1), (['F7', 'F8'], 4, 3, 1)]
 MC_RUNS_THOROUGH = [(['F1', 'A2'], 5, 5, 2), (['F5'], 7, 5, 1), (['F2', 'K1'], 5, 4, 1), (['F6', 'A3'], 5, 3, 1),
-                    (['F3', 'F4'], 5, 3, 1), (['F5', 'A2'], 5, 4, 1), (['A1', 'A3', 'K1'], 5, 4, 1)]
+                    (['F3', 'F4'], 5, 3, 1), (['F5', 'A2'], 5, 4, 1), (['A1', 'A3', 'K1'], 5, 4, 1), (['F7', 'F8'], 6, 4, 2)]
 MONITORS = ['RulesExact', 'InstallOnce', 'HandlersExact', 'SafeWhenNotInPlay', 'NoCoilLeftOn', 'NoStrayReenable']
 DEVIATIONS = {
     'RepulseLeftOn': ('C10:flipper:repulse-coil-left-energised-after-disable',
